@@ -10,10 +10,13 @@ Subject: `Model.ParseIntFormat.parseIntFormat` — the statement-by-statement mo
 expansion of `algorithm!` (`lexical-parse-integer/src/algorithm.rs`) on the skip iterators of `Model.Iter`, tied to
 the implementation by correspondence on every `pi` op of the C10 / C11 / C12 / C13 generators.
 
-The class for which everything below is PROVED (`SimpleFmt`): release build, no digit-separator byte, no integer
-separator flags, no base prefix, no base suffix, `no_integer_leading_zeros` off — any combination of
+The class for which everything below is PROVED (`SimpleFmt`): release build, no INTEGER separator flags (contiguous
+integer iterator), no base prefix, no base suffix, `no_integer_leading_zeros` off — any combination of
 `required_integer_digits`, `required_mantissa_digits`, `no_positive_mantissa_sign`, `required_mantissa_sign` (and of
-the float-only flags, which the integer parser ignores), every radix / type / `no_multi_digit` / input admitted by C04.
+the float-only flags, which the integer parser ignores), ANY digit-separator byte and any separator flags on the
+fraction / exponent (since repo fixes 12a2453 / 7e8a135; the class used to require "no digit-separator byte" only
+because of the defect repaired there, see `regression_sep_elsewhere`), every radix / type / `no_multi_digit` / input
+admitted by C04 — inputs MAY contain the separator byte: it is an ordinary non-digit for a contiguous iterator.
 Outside the class the full statements are kept as `def … : Prop`, and each known defect has a `decide`d witness on the
 model (`known_findings.json`: C10-dbg-int-suffix-with-separator, C11-int-*, C12-base-prefix-swallows-leading-zero,
 C12-no-digits-accepted-as-zero).
@@ -57,7 +60,7 @@ theorem simpleFmt_of_plain (c : Cfg) (hf : c.feats.format = true) (hd : c.debug 
     simp only [Nat.reducePow] at h12' ⊢
     omega
   obtain ⟨b3, b4, b5, b12, b32, b35, b38, b41⟩ := bits
-  refine ⟨⟨⟨hf, hd, hsep, ?_, hsuf⟩, hpre, b12⟩, b4, b5, b3⟩
+  refine ⟨⟨⟨hf, hd, ?_, hsuf⟩, hpre, b12⟩, b4, b5, b3⟩
   simp [Cfg.sepFlags, Cfg.flag, hf, SepFlags.none, Format.integerInternalSep, Format.integerLeadingSep,
     Format.integerTrailingSep, Format.integerConsecutiveSep, b32, b35, b38, b41]
 
@@ -207,12 +210,13 @@ def int_accepts_iff_grammar_full : Prop :=
     separatorFree c.fmt s = true →
       (complete c t nm s = .ok v ↔ grammarIntComplete c.feats c.fmt t s = .ok v)
 
-/-- **(c) proved part**: formats without separator byte / integer separator flags, without base prefix and base
+/-- **(c) proved part**: formats without integer separator flags (any separator byte, any flags on fraction /
+exponent; the input may contain the separator byte — both sides reject it as a non-digit), without base prefix and base
 suffix, with `no_integer_leading_zeros` off, in which digits are required (`required_integer_digits` or
 `required_mantissa_digits`; the complement is the excluded class "no digits accepted as zero"): for every type, radix,
 `no_multi_digit` and input, acceptance and value of the complete parser are those of `Spec.grammarIntComplete`.
-Missing towards the full statement: base suffix, `no_integer_leading_zeros`, separator formats on separator-free
-inputs (all three hold on the correspondence streams); base prefix and "no digits required" are genuinely false. -/
+Missing towards the full statement: base suffix, `no_integer_leading_zeros`, integer-separator formats on
+separator-free inputs (all three hold on the correspondence streams); base prefix and "no digits required" are genuinely false. -/
 theorem int_accepts_iff_grammar_partial (c : Cfg) (t : IntTy) (nm : Bool) (hs : SimpleFmt c)
     (ha : Admissible ⟨c, t, false, nm⟩)
     (hreq : (c.fmt.requiredIntegerDigits || c.fmt.requiredMantissaDigits) = true)
@@ -379,18 +383,68 @@ theorem not_int_format_partial_prefix_full : ¬ int_format_partial_prefix_full :
   rw [h2] at this
   cases this
 
-/-! ## two further defects the model predicts and the implementation confirms (not in known_findings.json at the
-time of writing; formats of `fmtcat_intfmt.py`, ops in the engineer's report) -/
+/-! ## a repaired defect (regression) and one further defect the model predicts and the implementation confirms
+(formats of `fmtcat_intfmt.py`) -/
 
 def fmtSepFractionOnly : Format := ⟨0xa0a0a000000005f000000020000000c⟩   -- separator `_`, fraction-internal flag only
 def fmtSuffixHNoLZ : Format := ⟨0xa0a0a6800000000000000000000100c⟩       -- base suffix `h` + no_integer_leading_zeros
 
-/-- a digit-separator byte used by the fraction / exponent only: the integer iterator is contiguous, so `next()` never
-counts, but its `current_count()` is the per-buffer digit count of the non-contiguous `Bytes` (0): `into_ok!` sees
-`count == 0` and EVERY integer is rejected as `Empty` (`"123"` → `Empty(3)`); the grammar derives 123 -/
-theorem witness_sep_elsewhere_rejects_all :
-    complete ⟨featsRF, fmtSepFractionOnly, false⟩ ⟨32, true⟩ false [0x31, 0x32, 0x33] = .error (.err "Empty" 3) ∧
-    grammarIntComplete featsRF fmtSepFractionOnly ⟨32, true⟩ [0x31, 0x32, 0x33] = .ok 123 := by decide
+/-- **regression (known finding "integer reject-all", fixed by repo commit 12a2453)**: a digit-separator byte used by the
+fraction / exponent only. The integer iterator is contiguous; before the fix its `current_count()` was the per-buffer
+digit count of the non-contiguous `Bytes` (never incremented, 0), `into_ok!` saw `count == 0` and EVERY integer was
+rejected as `Empty` (`"123"` → `Empty(3)`). Now the count is the cursor: `"123"` → 123, as the grammar says; the
+multi-digit path (i64, 9 digits; blocks counted since 7e8a135) agrees; a separator byte in the input is an invalid
+digit for both sides. -/
+theorem regression_sep_elsewhere :
+    complete ⟨featsRF, fmtSepFractionOnly, false⟩ ⟨32, true⟩ false [0x31, 0x32, 0x33] = .ok 123 ∧
+    grammarIntComplete featsRF fmtSepFractionOnly ⟨32, true⟩ [0x31, 0x32, 0x33] = .ok 123 ∧
+    partial_ ⟨featsRF, fmtSepFractionOnly, false⟩ ⟨32, true⟩ false [0x31, 0x32, 0x33] = .ok (123, 3) ∧
+    complete ⟨featsRF, fmtSepFractionOnly, false⟩ ⟨64, true⟩ false [0x31, 0x32, 0x33, 0x34, 0x35, 0x36, 0x37, 0x38, 0x39]
+      = .ok 123456789 ∧
+    complete ⟨featsRF, fmtSepFractionOnly, false⟩ ⟨32, true⟩ false [0x31, 0x5f, 0x32] = .error (.err "InvalidDigit" 1) ∧
+    grammarIntComplete featsRF fmtSepFractionOnly ⟨32, true⟩ [0x31, 0x5f, 0x32] = .err ∧
+    partial_ ⟨featsRF, fmtSepFractionOnly, false⟩ ⟨32, true⟩ false [0x31, 0x5f, 0x32] = .ok (1, 1) := by decide
+
+/-- the format of the regression lies in the class of the theorems above (it did not while the class demanded
+`digitSeparator = 0`): non-vacuity of the widened `SimpleFmt` -/
+theorem sepFractionOnly_simpleFmt : SimpleFmt ⟨featsRF, fmtSepFractionOnly, false⟩ :=
+  ⟨⟨rfl, rfl, by decide, by decide⟩, by decide, by decide⟩
+
+example : (⟨featsRF, fmtSepFractionOnly, false⟩ : Cfg).digitSeparator = 0x5f ∧
+    (⟨featsRF, fmtSepFractionOnly, false⟩ : Cfg).bytesContiguous = false ∧
+    (⟨featsRF, fmtSepFractionOnly, false⟩ : Cfg).iterContiguous .fraction = false := by decide
+
+/-- **the integer parser is blind to separators configured on the other components**: two `SimpleFmt` configurations
+with the same feature set, radix and the four flags the integer parser reads (separator byte, fraction / exponent
+separator flags and all float-only flags arbitrary on both sides) compute the same result on EVERY input — also on
+inputs containing either separator byte. -/
+theorem parseIntFormat_separator_irrelevant (e e2 : Env) (hs : SimpleFmt e.c) (hs2 : SimpleFmt e2.c)
+    (hfeats : e.c.feats = e2.c.feats) (ht : e.t = e2.t) (hp : e.partial_ = e2.partial_) (hnm : e.noMulti = e2.noMulti)
+    (hr : e.c.fmt.mantissaRadix = e2.c.fmt.mantissaRadix)
+    (hri : e.c.fmt.requiredIntegerDigits = e2.c.fmt.requiredIntegerDigits)
+    (hrm : e.c.fmt.requiredMantissaDigits = e2.c.fmt.requiredMantissaDigits)
+    (hnp : e.c.fmt.noPositiveMantissaSign = e2.c.fmt.noPositiveMantissaSign)
+    (hrs : e.c.fmt.requiredMantissaSign = e2.c.fmt.requiredMantissaSign) (s : List Nat) :
+    parseIntFormat e s = parseIntFormat e2 s := by
+  have hrad : e.radix = e2.radix := by simp [Env.radix, Cfg.mantissaRadix, hr]
+  have hreq : e.requiredDigits = e2.requiredDigits := by
+    obtain ⟨c, t, p, nm⟩ := e; obtain ⟨c2, t2, p2, nm2⟩ := e2
+    rw [requiredDigits_eq c t p nm hs.hf, requiredDigits_eq c2 t2 p2 nm2 hs2.hf]
+    simp only at hri hrm; rw [hri, hrm]
+  rw [parseIntFormat_simple_eq e hs.toSimple hs.pre hs.nolz, parseIntFormat_simple_eq e2 hs2.toSimple hs2.pre hs2.nolz]
+  simp only [signGate, hfeats, ht, hp, hnm, hrad, hreq, hnp, hrs]
+
+theorem standard_simpleFmt : SimpleFmt ⟨featsRF, Format.standard, false⟩ :=
+  ⟨⟨rfl, rfl, by decide, by decide⟩, by decide, by decide⟩
+
+/-- non-vacuity: `fmtSepFractionOnly` against the plain radix-10 format `Format.standard` -/
+example (t : IntTy) (p nm : Bool) (s : List Nat) :
+    parseIntFormat ⟨⟨featsRF, fmtSepFractionOnly, false⟩, t, p, nm⟩ s =
+      parseIntFormat ⟨⟨featsRF, Format.standard, false⟩, t, p, nm⟩ s :=
+  parseIntFormat_separator_irrelevant ⟨⟨featsRF, fmtSepFractionOnly, false⟩, t, p, nm⟩
+    ⟨⟨featsRF, Format.standard, false⟩, t, p, nm⟩ sepFractionOnly_simpleFmt standard_simpleFmt rfl rfl rfl rfl
+    (by dsimp only; decide) (by dsimp only; decide) (by dsimp only; decide) (by dsimp only; decide)
+    (by dsimp only; decide) s
 
 /-- base suffix with `no_integer_leading_zeros` (no prefix): `"0h"` → `InvalidDigit(1)`; the grammar derives 0 -/
 theorem witness_suffix_nolz_zero :
